@@ -148,8 +148,17 @@ class Ctx:
         if java_opts:
             env["JAVA_TOOL_OPTIONS"] = java_opts
         t = time.time()
-        rc, out, err = self.run(cmd, cwd=wd, timeout=timeout, env=env)
-        out = "\n".join(l for l in out.splitlines() if not l.startswith(("Parsing file", "Semantic processing", "Linting of")))
+        for attempt in (1, 2):
+            rc, out, err = self.run(cmd, cwd=wd, timeout=timeout, env=env)
+            out = "\n".join(l for l in out.splitlines() if not l.startswith(("Parsing file", "Semantic processing", "Linting of")))
+            # TLC's exit status is 0 (ok), 10-13 (assumption / deadlock / safety / liveness violated); anything else that is not an
+            # explained violation is a tool failure. A sporadic one (seen once under heavy load: status 76 without a message) gets one retry.
+            explained = rc in (0, 10, 11, 12, 13) or "is violated" in out or "is false" in out or "equal to FALSE" in out
+            if explained or attempt == 2:
+                break
+            log("TLC %s: unexplained exit status %d, retrying once" % (name, rc))
+            self.cov["notes"].append("TLC %s: unexplained exit status %d on the first attempt (retried)" % (name, rc))
+            shutil.rmtree(os.path.join(wd, "md"), ignore_errors=True)
         res = {"rc": rc, "out": out + err, "workdir": wd, "generated": 0, "distinct": 0,
                "violated": None, "wall_s": round(time.time() - t, 1), "name": name}
         m = re.findall(r"(\d+) states generated, (\d+) distinct states found", out)
